@@ -1,4 +1,5 @@
 #include "h_tree.h"
+int vt_raw = 0;
 
 static void be(FILE* out, uint64_t v, int n) {
   fputc('[', out);
@@ -44,8 +45,10 @@ static void vt_node(FILE* out, const cbor_item_t* it) {
         raw(out, bs ? cbor_bytestring_handle(it) : cbor_string_handle(it), bs ? cbor_bytestring_length(it) : cbor_string_length(it));
         fprintf(out, ",\"nc\":0,\"cp\":%zu,\"rc\":%zu}", bs ? (size_t)0 : it->metadata.string_metadata.codepoint_count /* read in place: observing must not perturb */, rc);
       } else {
-        size_t n = bs ? cbor_bytestring_chunk_count(it) : cbor_string_chunk_count(it);
-        cbor_item_t** ch = bs ? cbor_bytestring_chunks_handle(it) : cbor_string_chunks_handle(it);
+        /* vt_raw: the structure is read from the item's fields, not through getters (C18: observing must not perturb - a getter that
+         * repairs or caches something on first use would otherwise run before the write protection is in place) */
+        size_t n = vt_raw ? ((struct cbor_indefinite_string_data*)it->data)->chunk_count : bs ? cbor_bytestring_chunk_count(it) : cbor_string_chunk_count(it);
+        cbor_item_t** ch = vt_raw ? ((struct cbor_indefinite_string_data*)it->data)->chunks : bs ? cbor_bytestring_chunks_handle(it) : cbor_string_chunks_handle(it);
         fprintf(out, "[],\"nc\":%zu,\"rc\":%zu}", n, rc);
         for (size_t i = 0; i < n; i++) {
           fputc(',', out);
@@ -55,8 +58,8 @@ static void vt_node(FILE* out, const cbor_item_t* it) {
       break;
     }
     case CBOR_TYPE_ARRAY: {
-      size_t n = cbor_array_size(it);
-      cbor_item_t** h = cbor_array_handle(it);
+      size_t n = vt_raw ? it->metadata.array_metadata.end_ptr : cbor_array_size(it);
+      cbor_item_t** h = vt_raw ? (cbor_item_t**)it->data : cbor_array_handle(it);
       fprintf(out, "{\"t\":\"arr\",\"w\":0,\"def\":%s,\"v\":[],\"nc\":%zu,\"rc\":%zu,\"cap\":%zu}", cbor_array_is_definite(it) ? "true" : "false", n, rc,
               cbor_array_allocated(it));
       for (size_t i = 0; i < n; i++) {
@@ -66,8 +69,8 @@ static void vt_node(FILE* out, const cbor_item_t* it) {
       break;
     }
     case CBOR_TYPE_MAP: {
-      size_t n = cbor_map_size(it);
-      struct cbor_pair* h = cbor_map_handle(it);
+      size_t n = vt_raw ? it->metadata.map_metadata.end_ptr : cbor_map_size(it);
+      struct cbor_pair* h = vt_raw ? (struct cbor_pair*)it->data : cbor_map_handle(it);
       fprintf(out, "{\"t\":\"map\",\"w\":0,\"def\":%s,\"v\":[],\"nc\":%zu,\"rc\":%zu,\"cap\":%zu}", cbor_map_is_definite(it) ? "true" : "false", 2 * n, rc,
               cbor_map_allocated(it));
       for (size_t i = 0; i < n; i++) {
